@@ -53,6 +53,8 @@ func paramValue(s string) string {
 		return "s"
 	case "mb":
 		return "n\u00e9" // two characters, three bytes
+	case "bs2":
+		return "a\\\\"
 	}
 	return ""
 }
@@ -61,7 +63,7 @@ func paramName(v string, set bool) string {
 	if !set {
 		return "unset"
 	}
-	for _, n := range []string{"x", "xy", "yz", "w", "uv", "s", "mb"} {
+	for _, n := range []string{"x", "xy", "yz", "w", "uv", "s", "mb", "bs2"} {
 		if paramValue(n) == v {
 			return n
 		}
@@ -108,7 +110,11 @@ func runParam(c paramCase) (o paramObs) {
 	default:
 		env.Unset("IFS")
 	}
-	pe := &ast.ParamExp{Braces: true, Name: &ast.Lit{Value: c.P}}
+	pname := c.P
+	if pname == "big" {
+		pname = "99999999999999999999"
+	}
+	pe := &ast.ParamExp{Braces: true, Name: &ast.Lit{Value: pname}}
 	switch c.Op {
 	case "":
 	case "len":
@@ -128,6 +134,8 @@ func runParam(c paramCase) (o paramObs) {
 			w = ast.Word{&ast.Quote{Tok: `"`, Value: ast.Word{&ast.ParamExp{Name: &ast.Lit{Value: "@"}}}}}
 		case "pat":
 			w = ast.Word{&ast.Lit{Value: "?"}}
+		case "patbs":
+			w = ast.Word{&ast.Quote{Tok: "'", Value: ast.Word{&ast.Lit{Value: "\\"}}}}
 		}
 		pe.Word = w
 	}
